@@ -158,6 +158,15 @@ pub fn run() -> i32 {
             chk(r["connect_refused_after_drop"].as_bool() == Some(true), &format!("server constructed by {}: a connection attempt after the drop is refused", how), &mut real_fail);
         }
     }
+    let frows = ro["delivered_after_full_close"].as_array().cloned().unwrap_or_default();
+    chk(frows.len() >= 24, "the table 'delivered after a full close' was produced (6 pipelines x application reads bodies or not x TCP / UNIX)", &mut real_fail);
+    for r in &frows {
+        chk(
+            r["delivered"] == r["sent"],
+            &format!("client sends the pipeline {} over {} and closes its socket (full close) before anything is answered, application {}: requests delivered {} of {} sent", r["pipeline"], r["socket"], if r["application_reads_bodies"].as_bool() == Some(true) { "reads every body" } else { "answers without reading" }, r["delivered"], r["sent"]),
+            &mut real_fail,
+        );
+    }
     let rows = ro["tcp_drop_by_bind_address"].as_array().cloned().unwrap_or_default();
     chk(rows.iter().filter(|r| r["bound"].as_bool() == Some(true)).count() >= 8, "the server could be bound on the IPv4 bind-address classes (127.0.0.1, 127.0.0.2, 127.1.2.3, 0.0.0.0)", &mut real_fail);
     for r in &rows {
@@ -188,7 +197,7 @@ pub fn run() -> i32 {
     }
     for m in report["real_only_failures"].as_array().unwrap() {
         let what = m.as_str().unwrap_or("");
-        let prop = if what.contains("peer address:") { "C02" } else if what.contains("recv") { "C17" } else if what.contains("reset at once") { "C15" } else { "C20" };
+        let prop = if what.contains("peer address:") { "C02" } else if what.contains("full close") { "C15" } else if what.contains("recv") { "C17" } else if what.contains("reset at once") { "C15" } else { "C20" };
         println!("VIOLATION property={} replay={}", prop, dir.join("evidence").join("conformance.json").display());
         println!("  on kernel sockets: {} does not hold", what);
     }
